@@ -25,6 +25,9 @@ __CPROVER_requires(ret == &g_c18_out)         /* the returned std::string: a typ
 __CPROVER_requires(verif_exc == 0 && g_ratio_calls == 0)
 __CPROVER_requires(g_dur_lo <= usecs && usecs <= g_dur_hi)          /* case split over the magnitude (one obligation group per range; the ranges cover 0 .. 2^64-1) */
 __CPROVER_assigns(verif_exc, g_c18_out, g_ratio_calls, g_ratio_num, g_ratio_den, g_ratio_val)
+/* Clause sets can be selected with -DDUR_PART=1|2|3 (the widest magnitude range is checked in three obligation groups, one per
+ * set, to keep each solver run short); without DUR_PART all clauses are active. */
+#if !defined(DUR_PART) || DUR_PART == 1
 /* 1. never throws */
 __CPROVER_ensures(verif_exc == 0)
 /* 2. the text is in the grammar [d:][h:][m:]s[.f]: at most three integer fields each followed by ':', then the seconds */
@@ -33,11 +36,15 @@ __CPROVER_ensures(verif_exc == 0 ==> (!ret->d_bad && ret->d_sec && !ret->d_pend 
 __CPROVER_ensures(verif_exc == 0 ==> ((ret->d_nf >= 2 ==> ret->d_two1) && (ret->d_nf >= 3 ==> ret->d_two2)))
 __CPROVER_ensures(verif_exc == 0 ==> (ret->d_nf >= 1 ==> ret->d_sec_lead + ret->dbl_digits == 2))
 __CPROVER_ensures(verif_exc == 0 ==> (ret->d_nf == 0 ==> ret->d_sec_lead == 0))
+#endif
+#if !defined(DUR_PART) || DUR_PART == 2
 /* 4. evaluates back to the input: the seconds token prints the double (numerator / 10^6) computed by the one division, and
  *    days*86400e6 + hours*3600e6 + minutes*60e6 + numerator == usecs exactly (d_total / d_exact: stubs/C18_text.h) */
 __CPROVER_ensures(verif_exc == 0 ==> (g_ratio_calls == 1 && ret->ndbl == 1 && ret->dbl_is_ratio && ret->dbl_den == 1000000))
 __CPROVER_ensures(verif_exc == 0 ==> ret->d_exact)
 __CPROVER_ensures(verif_exc == 0 ==> ret->d_total == usecs)
+#endif
+#if !defined(DUR_PART) || DUR_PART == 3
 /* 5. mixed-radix canonical form: h < 24 and m < 60 wherever the field is present (an absent field counts as 0), s < 60,
  *    no leading zero field */
 __CPROVER_ensures(verif_exc == 0 ==> (DUR_MIN(ret) < 60 && DUR_HR(ret) < 24))
@@ -45,5 +52,6 @@ __CPROVER_ensures(verif_exc == 0 ==> (ret->dbl_num < 60000000 && (ret->d_nf >= 1
 /* 6. printed precision: the requested one; a negative request selects a default in 0..6 */
 __CPROVER_ensures(verif_exc == 0 ==> (subsecond_precision >= 0 ? ret->dbl_prec == subsecond_precision
                                                                : (ret->dbl_prec >= 0 && ret->dbl_prec <= 6)))
+#endif
 ;
 #endif
